@@ -40,3 +40,29 @@ fn query_iter_body(k: usize) {
     kani::cover!(true);
 }
 //@chunks 4 c09_query_iter query_iter_body #[kani::proof] #[kani::unwind(14)] #[kani::stub(ohkami_lib::percent_decode, spec_percent_decode)] #[kani::stub(std::string::String::from_utf8_lossy, stub_lossy)]
+
+/// the same clause on ENUMERATED CONCRETE query strings (the symbolic template above does not finish in 15 min: every byte may be a delimiter for CBMC)
+fn query_iter_concrete_body(k: usize) {
+    const Q: [(&[u8], &[(&str, &str)]); 7] = [
+        (b"a=1&b=2", &[("a", "1"), ("b", "2")]),
+        (b"q=what%3F&lang%2B=c%2B&n=1", &[("q", "what?"), ("lang+", "c+"), ("n", "1")]),
+        (b"k=&x=%20y", &[("k", ""), ("x", " y")]),
+        (b"a=1&=v&b&c=3&", &[("a", "1"), ("c", "3")]),            // empty key, missing `=`, trailing `&` are skipped
+        (b"a=%zz&b=100%25", &[("a", "%zz"), ("b", "100%")]),      // an invalid escape is kept verbatim (RFC 3986 decoding of the part)
+        (b"", &[]),
+        (b"z=a%3Db%26c", &[("z", "a=b&c")]),
+    ];
+    let (text, want) = Q[k];
+    let q = QueryParams::new(text);
+    let mut it = q.iter();
+    let mut i = 0;
+    while i < want.len() {
+        let got = it.next();
+        assert!(matches!(&got, Some((k, v)) if eqb(k.as_bytes(), want[i].0.as_bytes()) && eqb(v.as_bytes(), want[i].1.as_bytes())),
+            "query iterator: the i-th pair is the percent-decoding of the parts around `=` of the i-th well-formed `&`-separated part");
+        std::mem::forget(got);
+        i += 1;
+    }
+    assert!(it.next().is_none(), "query iterator: nothing after the last pair");
+}
+//@chunks 7 c09_query_iter_concrete query_iter_concrete_body #[kani::proof] #[kani::unwind(30)] #[kani::stub(std::string::String::from_utf8_lossy, stub_lossy)]
